@@ -228,6 +228,18 @@ def run(ctx: Ctx) -> int:
                     readback = [t for t in tests if isinstance(t, ast.Compare) and len(t.ops) == 1 and isinstance(t.ops[0], ast.Eq) and any(isinstance(c_, ast.Call) and isinstance(c_.func, ast.Name) and c_.func.id == dname for c_ in ast.walk(t)) and any(isinstance(n_, ast.Name) and n_.id == par for side in (t.left, t.comparators[0]) for n_ in [side])]
                     ok = bool(readback)
                     ctx.oblige("C20.c.i", ok, r, f"{sname} returns the {conv.func.id}() form only when {dname} reads it back as the same value" if ok else f"{sname} returns {conv.func.id}({par}) without checking that {dname} reads it back as the same value: values that {conv.func.id} cannot represent exactly do not survive dump + parse (Decimal('0.12345678901234567890123') loses its digits)", fn=sf, construct=f"{tname} narrowed serialisation is read back")
+            # ... and whatever else the serializer returns is made from the value itself, not from the narrowed number
+            narrowed = {s_.targets[0].id for s_ in walk_local(sf) if isinstance(s_, ast.Assign) and isinstance(s_.targets[0], ast.Name) and isinstance(s_.value, ast.Call) and isinstance(s_.value.func, ast.Name) and s_.value.func.id in NUMERIC}
+            for r in [x for x in walk_local(sf) if isinstance(x, ast.Return) and x.value is not None]:
+                arms_ = [r.value.body, r.value.orelse] if isinstance(r.value, ast.IfExp) else [r.value]
+                for e in arms_:
+                    if isinstance(e, ast.Name) and e.id in narrowed:
+                        continue  # the narrowed form itself (judged above)
+                    if isinstance(e, ast.Call) and isinstance(e.func, ast.Name) and e.func.id in NUMERIC:
+                        continue
+                    names_e = {n_.id for n_ in ast.walk(e) if isinstance(n_, ast.Name)}
+                    ok = par in names_e and not (names_e & narrowed)
+                    ctx.oblige("C20.c.i", ok, r, f"the fallback of {sname} is made from the value itself" if ok else f"`{ast.unparse(e)[:40]}` in {sname} is made from the narrowed number, not from `{par}`: a value the float cannot hold is written as the rounded float's text (0.10000000000000000001 -> '0.1', 1E+400 -> 'inf') and reads back changed", fn=sf, construct=f"{tname} fallback uses the value")
             # a float that comes back from the loader is read through its repr (the shortest text that denotes it):
             # constructing from the binary float gives Decimal('0.1000000000000000055...') for the text 0.1
             if any(isinstance(c_, ast.Call) and isinstance(c_.func, ast.Name) and c_.func.id == "float" for c_ in ast.walk(sf)) and dname in local_fns:
